@@ -28,7 +28,7 @@ m = {
     'setup_cmd': 'make -C /verif setup',
     'hooks': {'guard': 'FIXEDMATH_VERIF',
               'enable': 'no hook inside the library is needed (sequential, stateless API: the linearisation point is the return of the public call); the driver is compiled with -DFIXEDMATH_VERIF, which the library ignores',
-              'baseline_off_cmd': 'cmake -G Ninja -S /repo -B /repo/_build && cmake --build /repo/_build && ctest --test-dir /repo/_build -j8 --timeout 900',
+              'baseline_off_cmd': 'cmake -G Ninja -DFIXEDMATH_ENABLE_UNIT_TESTS=ON -S /repo -B /repo/_build && cmake --build /repo/_build && ctest --test-dir /repo/_build -j8 --timeout 900',
               'source_commits': [], 'add_only': True},
     'engines': [{'name': 'fxcheck', 'path': 'bin/fxcheck', 'serves_properties': [c['property_id'] for c in checks],
                  'kind_free_text': 'explicit TLA+ specification (spec/*.tla: HighSpec contracts, LowSpec transcription, register machine) checked by TLC: '
